@@ -1216,9 +1216,10 @@ result_t NumberDataType::parseInput(const string inputStr, unsigned int* parsedV
           errno = 0;
           long signedValue = strtol(str, &strEnd, 0);
           if (errno == ERANGE
-          || (m_bitCount != 32 && (signedValue < 0L ? (signedValue < -(1L << (m_bitCount - 1)))
-            : (signedValue >= (1L << (m_bitCount - 1)))
-          ))) {
+          || (m_bitCount != 32 ? (signedValue < 0L ? (signedValue < -(1L << (m_bitCount - 1)))
+            : (signedValue >= (1L << (m_bitCount - 1))))
+            : (signedValue < INT32_MIN || signedValue > INT32_MAX)
+          )) {
             return RESULT_ERR_OUT_OF_RANGE;  // value out of range
           }
           if (signedValue < 0 && m_bitCount != 32) {
@@ -1228,10 +1229,12 @@ result_t NumberDataType::parseInput(const string inputStr, unsigned int* parsedV
           }
         } else {
           errno = 0;
-          value = (unsigned int)strtoul(str, &strEnd, 0);
-          if (errno == ERANGE || (m_bitCount != 32 && value >= (1U << m_bitCount))) {
+          unsigned long unsignedValue = strtoul(str, &strEnd, 0);
+          if (errno == ERANGE || unsignedValue > UINT32_MAX || (strEnd != str && inputStr.find('-') != string::npos)
+          || (m_bitCount != 32 && unsignedValue >= (1UL << m_bitCount))) {
             return RESULT_ERR_OUT_OF_RANGE;
           }
+          value = (unsigned int)unsignedValue;
         }
         if (strEnd == nullptr || strEnd == str || (*strEnd != 0 && *strEnd != '.')) {
           return RESULT_ERR_INVALID_NUM;  // invalid value
